@@ -72,12 +72,37 @@ if "C04" in which:
     ])
 
 if "C05" in which:
-    put("C05", "Parser.StreamModel Parser.AbsStream Parser.StreamSpec Parser.StreamRefine Parser.StreamInv " + SF, [
+    put("C05", "Parser.StreamModel Parser.AbsStream Parser.StreamSpec Parser.StreamRefine Parser.StreamInv " + SF + " Parser.ChainTargets Parser.ChainStream Parser.ChainProofs Parser.Chain", [
         ("---- stream parser and the hand-off back ----  over every legal schedule the unparsed input is exactly the unread suffix of "
          "(leftover ++ fed); at a record boundary with the output taken, into_request_parser succeeds and the new request parser "
          "holds exactly those bytes (capacity unchanged, state Header); into_input returns them; off a boundary both refuse", "C05_stream", "C05_stream_handoff"),
         ("request parser -> stream parser: the leftover becomes the raw input, nothing else", "into_stream_parser_inv", "C05_to_stream_parser"),
-    ])
+        ("---- the k-request chain ('Consequently ...') ----  the stream phase of ONE request under every legal caller behaviour (parse calls "
+         "with any chunking and destination, consume_stream, compress, consume_output, any number of selections of later streams): per "
+         "stream the bytes handed out are a prefix of that stream's content in the request's own records, and the parser never reads "
+         "past the request's records: at every record boundary the uninterpreted bytes are a suffix of the record list followed by "
+         "whatever the client sent next", "stream_phase", "C05_stream_phase", ["stream_phase_stmt"]),
+        ("THE CHAIN: k requests back to back (C01's preamble family, records closing each request's streams), every read schedule of "
+         "every request parser, every legal stream-phase behaviour (reading nothing, part or all of each stream), any look-ahead at "
+         "every hand-off: all k stages complete, the i-th request is exactly the i-th transmitted one, stage i hands out only "
+         "prefixes of request i's streams, and what is left at the end is a suffix of the last request's records plus the trailing "
+         "bytes. chain_run / chain_legal / creq_ok: Parser/ChainTargets.v", "chain", "C05_chain", ["chain_stmt"]),
+        ("... and each request alone on a fresh connection yields the same request: 'the same k environments as k separate connections'",
+         "chain_separately", "C05_chain_separately", ["chain_separately_stmt"]),
+    ], tail='''(* non-vacuity of C05_chain: two pipelined requests (a Responder whose Stdin is read completely, a Filter whose Stdin is read in part
+   before Data is selected), B = 256, the whole connection in the buffer at the first hand-off: every hypothesis holds and the run
+   yields both requests *)
+Example C05_chain_example :
+  Forall (creq_ok (aligned_bufsize 256)) [ch_c1; ch_c2] /\\
+  chain_legal ch_norm 10 (new_parser 256) ch_wire [ch_g1; ch_g2].
+Proof. destruct chain_nonvacuous as (_ & H1 & _ & _ & _ & H2). split; [exact H1|exact H2]. Qed.
+
+(* the caller obligation "do not parse during the stream phase of a role without input streams" is needed: DESIGN.md, observation O4 *)
+Example C05_authorizer_overread :
+  o4_left [] = Some (creq_wire o4_resp ++ [9; 9; 9]) /\\
+  o4_left [XC (CParse [] None); XC (CConsumeOutput 100)] = Some [9; 9; 9].
+Proof. exact authorizer_overread_swallows_successor. Qed.
+''')
 
 if "C18" in which:
     put("C18", "Parser.ReqWire Parser.ReqTargets Parser.AbsStream Parser.StreamSpec Parser.StreamRefine Parser.StreamInv " + SF, [
@@ -202,7 +227,7 @@ if "C09" in which:
    Only statements.  Model: Async/Conn.v (Request::poll_input / poll_output / writeable, handler scripts).
    K a u = the content of the active stream still to come from parser state a over future bytes u (Parser/StreamSpec.v);
    [remaining w] = client bytes not yet delivered by the transport; acct = the conservation record of Async/ConnReads.v. *)
-From FV Require Import %s%s.
+From FV Require Import %s%s Async.ReadsWTargets Async.ReadsWProofs.
 ''' % (PRE, CR)
     put("C09", "", [
         ("ONE poll of poll_input, any caller buffer (Some c / fill_buf = None), any transport behaviour: with dl the bytes handed to "
@@ -218,6 +243,9 @@ From FV Require Import %s%s.
          "order, are exactly a prefix of the stream content, and what it has not seen is still to come", "run_handler_read_only", "C09_handler_reads"),
         ("handlers that also switch streams / call writeable(): after a switch the delivered bytes are content of the newly selected "
          "stream computed from the handler's very first state (trace law tlaw)", "run_handler_reads_top", "C09_handler_reads_and_switches"),
+        ("EVERY handler of the family, writes and flushes to stdout/stderr interleaved anywhere (all eleven opcodes, any write sizes, "
+         "write faults included): the same trace law for the read side, whatever was written in between (hw_post / htlaw: "
+         "Async/ReadsWTargets.v)", "run_handler_reads_w_top", "C09_handler_reads_with_writes", ["run_handler_reads_w_top_stmt"]),
         ("the gate: poll_input opens it only when it went to the parser, returned Ok and the active stream is the role's final "
          "stream; nothing closes it", "poll_input_gate", "C09_gate"),
         ("Request::new opens the gate only for roles whose first stream is the final one", "request_new_gate", "C09_initial_gate"),
